@@ -24,3 +24,40 @@ func meta(id string, m Meta) { Metas[id] = m }
 
 // NotApplicable lists the properties not claimed, with the reason.
 var NotApplicable = map[string]string{}
+
+// Extras holds additional rule sets appended to a property's check (added
+// after independently seeded changes showed a gap); they run after the main
+// check with the same Ctx.
+var Extras = map[string][]func(*engine.Ctx){}
+
+func extend(id string, f func(*engine.Ctx)) { Extras[id] = append(Extras[id], f) }
+
+// Run executes a property's check and its extras.
+func Run(id string, c *engine.Ctx) bool {
+	fn, ok := Registry[id]
+	if !ok {
+		return false
+	}
+	fn(c)
+	for _, x := range Extras[id] {
+		x(c)
+	}
+	return true
+}
+
+// progWith returns c.Prog when it already has all the named packages loaded
+// with syntax, else loads them.
+func progWith(c *engine.Ctx, rel ...string) *engine.Prog {
+	if c.Prog != nil {
+		all := true
+		for _, r := range rel {
+			if c.Prog.Pkg(r) == nil {
+				all = false
+			}
+		}
+		if all {
+			return c.Prog
+		}
+	}
+	return c.Load(rel...)
+}
